@@ -175,7 +175,16 @@ def simple_part(ctx, part, module, cfg, defect_cfgs, violated, mode, reset_ev, c
             raise vlib.Inconclusive("%s model does not reject %s" % (module, d))
     binary = vlib.go_build("c01")
     trace = os.path.join(ctx.tmp, part + ".ndjson")
-    vlib.run_driver(ctx, binary, ["-mode", mode, "-cases", cases, "-trace", trace], timeout=1700)
+    for attempt in range(3):
+        try:
+            vlib.run_driver(ctx, binary, ["-mode", mode, "-cases", cases, "-trace", trace], timeout=1700)
+            break
+        except vlib.Inconclusive as e:
+            # the in-process MOSN binds ports that were free a moment ago; on a shared machine another process may
+            # take one in between (MOSN then exits): start over with fresh ports
+            if attempt == 2 or "driver died" not in str(e):
+                raise
+            ctx.notes.append("%s driver restarted: %s" % (part, str(e)[:200]))
     evs = vlib.read_jsonl(trace)
     nruns = sum(1 for e in evs if e["ev"] == reset_ev)
     if nruns != ncases:
